@@ -555,6 +555,113 @@ def run_fn(prop, tier, seed, replay=None):
     return rc
 
 
+# ---- C18: panics (every family), deadlocks and data races (uncontrolled runs under the race detector) --------------
+
+RACE_FAMILIES = ["stress", "rollout", "own", "pause", "health", "snap"]
+
+
+def parse_races(text):
+    """Each report -> key 'funcA | funcB' of the two innermost proxy frames (stable under line shifts)."""
+    keys = {}
+    for block in text.split("WARNING: DATA RACE")[1:]:
+        block = block.split("==================")[0]
+        tops = []
+        for part in re.split(r"\n\n", block):
+            if not re.match(r"\s*(Write|Read|Previous write|Previous read|Atomic)", part.strip()):
+                continue
+            frames = re.findall(r"^  ([\w./\-*()\[\]]+)\(\)", part, re.M)
+            proxy = [f for f in frames if "kamal-proxy/internal/" in f]
+            tops.append(proxy[0].split("kamal-proxy/internal/")[1] if proxy else (frames[0] if frames else "?"))
+        if len(tops) >= 2:
+            key = " | ".join(sorted(tops[:2]))
+            keys.setdefault(key, block[:1500])
+    return keys
+
+
+def run_c18(prop, tier, seed, replay=None):
+    import subprocess
+    t0 = time.time()
+    known = vlib.load_known()
+    rc = 0
+    # (1) panics: the controlled families and the sequential histories
+    sub = {"C18": dict(families=["deploy", "pause", "rollout", "own", "snap", "health"], invs=["C18_panic"], dinvs=[])}
+    CONC.update(sub)
+    sizes_backup = dict(SIZES[tier])
+    if tier == "quick":
+        SIZES[tier].update(deploy=40, pause=50, rollout=50, own=50, snap=40, health=60)
+    if replay:
+        try:
+            return run_conc("C18", tier, seed, replay)
+        finally:
+            SIZES[tier].update(sizes_backup)
+    # (2) data races and deadlocks: the same scenario generators, no controller, real scheduler, race detector on
+    binary = vlib.build_harness(race=True)
+    n = 40 if tier == "quick" else 1500
+    races, hangs, scen = {}, [], 0
+    procs = []
+    for fam in RACE_FAMILIES:
+        out = os.path.join(vlib.scratch(), "race-%s" % fam)
+        os.makedirs(out, exist_ok=True)
+        env = dict(vlib.GOENV, VERIF_OUT=out, VERIF_FAMILY=fam, VERIF_N=str(n), VERIF_SEED=str(seed), VERIF_TIER=tier, VERIF_SCHED="free",
+                   GORACE="halt_on_error=0 history_size=3")
+        p = subprocess.Popen([binary, "-test.run", "^TestRun$", "-test.timeout", "240s" if tier == "quick" else "40m"], cwd=out, env=env,
+                             stdout=subprocess.PIPE, stderr=subprocess.STDOUT, text=True)
+        procs.append((fam, out, p))
+    for fam, out, p in procs:
+        o, _ = p.communicate()
+        scen += n
+        for k, blk in parse_races(o).items():
+            races.setdefault(k, (fam, blk))
+        if "test timed out" in o:
+            blocked = re.findall(r"goroutine \d+ \[(?:sync\.Mutex\.Lock|sync\.RWMutex\.R?Lock|semacquire)[^\]]*\]:\n((?:.+\n)+?)\n", o)
+            mine = [b for b in blocked if "kamal-proxy/internal/server" in b]
+            if mine:
+                hangs.append((fam, mine[0][:1200]))
+            else:
+                raise Inconclusive("uncontrolled run of family %s timed out without goroutines blocked on the proxy's locks:\n%s" % (fam, o[-2000:]))
+        elif p.returncode != 0 and "DATA RACE" not in o:
+            pp = vlib.classify_crash(out, o)
+            if pp:
+                raise pp
+            raise Inconclusive("race run of family %s failed (exit %d):\n%s" % (fam, p.returncode, o[-2500:]))
+    listed = collections.OrderedDict()
+    nviol = 0
+    for key, (fam, blk) in sorted(races.items()):
+        v = {"inv": "C18_race", "sig": "", "subj": key}
+        k = vlib.match_known("C18", v, known)
+        if k:
+            listed[k["id"] + " " + key] = k
+            print("KNOWN-FINDING: %s [%s]" % (k["text"].split(" ", 1)[1], key))
+            continue
+        path = vlib.save_replay("C18", 300 + nviol, {"property": "C18", "violation": {"inv": "C18_race", "subj": key, "report": blk},
+                                                     "plan": {"race_family": fam, "seed": seed}})
+        print("VIOLATION property=C18 replay=%s" % path)
+        print("  data race between %s (family %s)" % (key, fam))
+        nviol += 1
+        rc = 1
+    for fam, blk in hangs:
+        path = vlib.save_replay("C18", 400, {"property": "C18", "violation": {"inv": "C18_deadlock", "report": blk}, "plan": {"race_family": fam, "seed": seed}})
+        print("VIOLATION property=C18 replay=%s" % path)
+        print("  deadlock: the run stopped making progress with goroutines blocked on the proxy's locks (family %s)\n%s" % (fam, blk[:600]))
+        nviol += 1
+        rc = 1
+    try:
+        rc = max(rc, run_conc("C18", tier, seed, None))
+    except Inconclusive as e:
+        if rc == 0:
+            raise
+        print("  (controlled part inconclusive: %s)" % str(e)[:300])
+    finally:
+        SIZES[tier].update(sizes_backup)
+    EVIDENCE.append({"states": 1, "transitions": 1, "traces_validated_against_impl": scen, "evaluations": scen, "distinct_nontrivial": scen,
+                     "rule": "uncontrolled part: the scenario generators of the concurrency families run without the controller (real scheduler, "
+                             "16 cores) under the race detector; every report is keyed by the pair of innermost proxy functions; a run that "
+                             "times out with goroutines blocked on the proxy's own locks is a deadlock",
+                     "race_reports": sorted(races.keys()), "known_findings_printed": list(listed.keys()), "samples": [{"families": RACE_FAMILIES, "scenarios_each": n}],
+                     "_violations": nviol, "_assumptions": ["Go race detector (dynamic: only executed interleavings)", "testing/synctest"]})
+    return rc
+
+
 EVIDENCE = []
 
 
@@ -600,12 +707,14 @@ def main():
             kind = "seq" if "steps" in (json.load(open(a.replay)).get("plan") or {}) else "conc"
         if a.replay and "driver" in (json.load(open(a.replay)).get("plan") or {}):
             kind = "fn"
+        if a.prop == "C18":
+            rc = run_c18(a.prop, a.tier, seed, a.replay)
         if a.prop in FN and kind in (None, "fn"):
             rc = run_fn(a.prop, a.tier, seed, a.replay)
         if a.prop in SEQ and kind in (None, "seq"):
             rc2 = run_seq(a.prop, a.tier, seed, a.replay)
             rc = rc2 if rc is None else max(rc, rc2)
-        if a.prop in CONC and kind in (None, "conc"):
+        if a.prop in CONC and a.prop != "C18" and kind in (None, "conc"):
             rc2 = run_conc(a.prop, a.tier, seed, a.replay)
             rc = rc2 if rc is None else max(rc, rc2)
         if rc is None:
